@@ -27,7 +27,10 @@ RULE = ("seeded generator of in-memory charts built from objects: each of the fi
         "layout at on-grid times (every denominator <= 96) and arbitrary off-grid times, adjacent grid slots, several objects "
         "per measure and channel with different denominators (LCM grouping below and above 100), known / unknown / empty "
         "samples, custom LNOBJ and default ids, str and bytes header fields, misc headers; 30% of the charts (every layout) are written with "
-        "BMSMap.write_file to a temporary file and the bytes read back from disk, the rest with BMSMap.write; plus out-of-domain cases (measure "
+        "BMSMap.write_file to a temporary file and the bytes read back from disk, the rest with BMSMap.write; a third of the charts (every "
+        "layout, both routes) reach the judged write through a HISTORY of the object: built with other tempo values and times (tempo doubled, "
+        "times halved), written once (discarded), then given the real values through the in-place column setters (m.bpms.bpm / .offset, "
+        "m.hits.offset, m.holds.offset / .length) -- the judged output must be a function of the final state; plus out-of-domain cases (measure "
         ">= 1000, unknown column, too many tempo points); a case is non-trivial when it has >= 2 objects; distinct by hash of "
         "the canonical JSON of the input")
 ASSUMPTIONS = [
@@ -246,6 +249,7 @@ def generate(rng, tier):
         lname = LAYOUTS[i % 5] if i < 50 else rng.choice(LAYOUTS)
         cs = gen_chart(rng, lname, rng.random() < 0.55)
         cs["via_file"] = rng.random() < 0.3              # through BMSMap.write_file (every layout) instead of BMSMap.write
+        cs["history"] = rng.random() < 0.34              # the object was written before with other tempo values / times
         cases.append(cs)
     if tier != "quick":
         for nb in (300, 1295):                           # many tempo points (quadratic in Coq); 1295 trips the writer's assert
@@ -256,6 +260,10 @@ def generate(rng, tier):
 
 
 # ------------------------------------------------------------------ implementation side
+def num_f(x, exact):
+    return x if exact else float(x)
+
+
 def execute(case):
     from reamber.base.RAConst import RAConst
     from reamber.bms.BMSMap import BMSMap
@@ -272,15 +280,33 @@ def execute(case):
             RAConst.MIN_TO_MSEC = Fr(60000)
         m = BMSMap()
         enc = lambda s: s.encode("shift_jis")
-        m.hits = BMSHitList([BMSHit(num(t), int(c), enc(s)) for t, c, s in case["hits"]])
-        m.holds = BMSHoldList([BMSHold(num(t), int(c), num(l), enc(s)) for t, c, l, s in case["holds"]])
-        m.bpms = BMSBpmList([BMSBpm(num(o), DFr(fj(b)) if exact else float(fj(b)), metronome=mt) for o, b, mt in case["bpms"]])
+        bnum = (lambda b: DFr(b)) if exact else (lambda b: float(b))
+        hist = bool(case.get("history"))
+        # history: the object first holds OTHER tempo values / times (tempo doubled, every time halved: still 4/4 on measure
+        # lines), is written once, and then gets the real values through the in-place column setters of its lists
+        h2 = Fr(1, 2) if hist else Fr(1)
+        m.hits = BMSHitList([BMSHit(num_f(fj(t) * h2, exact), int(c), enc(s)) for t, c, s in case["hits"]])
+        m.holds = BMSHoldList([BMSHold(num_f(fj(t) * h2, exact), int(c), num_f(fj(l) * h2, exact), enc(s)) for t, c, l, s in case["holds"]])
+        m.bpms = BMSBpmList([BMSBpm(num_f(fj(o) * h2, exact), bnum(fj(b) / h2), metronome=mt) for o, b, mt in case["bpms"]])
         m.samples = {enc(k): enc(v) for k, v in case["samples"]}
         m.ln_end_channel = enc(case["lnobj"])
         m.title = enc(case["title"]) if case["title_bytes"] else case["title"]
         m.artist = case["artist"]
         m.version = enc(case["version"])
         m.misc = {enc(k): enc(v) for k, v in case["misc"]}
+        if hist:
+            try:
+                m.write(R._layout(case["layout"]), no_sample_default=enc(case["dflt"]))          # first write, discarded
+            except (KeyError, IndexError, AssertionError, ValueError, ZeroDivisionError):
+                pass
+            if case["bpms"]:
+                m.bpms.bpm = [bnum(fj(b)) for _, b, _ in case["bpms"]]
+                m.bpms.offset = [num(o) for o, _, _ in case["bpms"]]
+            if case["hits"]:
+                m.hits.offset = [num(t) for t, _, _ in case["hits"]]
+            if case["holds"]:
+                m.holds.offset = [num(t) for t, _, _, _ in case["holds"]]
+                m.holds.length = [num(l) for _, _, l, _ in case["holds"]]
         try:
             if case.get("via_file"):
                 # BMSMap.write_file: the same bytes through a file; the layout and the default id must be forwarded
@@ -341,6 +367,7 @@ def bucket(case, out):
     k += "/holds" if case["holds"] else ""
     k += "/3f" if _long_decimals(case) else ""
     k += "/file" if case.get("via_file") else ""
+    k += "/hist" if case.get("history") else ""
     if out.get("v") is None:
         k += "/exc"
     return k
